@@ -2,7 +2,8 @@
    Model: PyrollLib.UnitTree (Unit._SubUnitsList + PassSequence edits), tied to the code by the
    correspondence run of this check.  Inv (UnitFacts.v): every listed unit names the listing sequence as
    its parent; every unit naming a parent is listed there; no unit is listed twice. *)
-From PyrollLib Require Import UnitTree UnitFacts UnitFlatten.
+From PyrollLib Require Import UnitTree UnitFacts UnitFlatten UnitEffects UnitEffectsFacts.
+From Run Require Import Gen_unitlist.
 
 Theorem C13_every_edit_preserves_consistency : forall s o,
   Inv s -> admissible s o -> covered o -> Inv (fst (step s o)).
@@ -40,6 +41,27 @@ Print Assumptions C13_flatten_preserves_consistency.
 Theorem C13_every_history_with_flatten : forall ops s, Inv s -> ok_run_all s ops -> Inv (fst (run s ops)).
 Proof. exact run_inv_all. Qed.
 Print Assumptions C13_every_history_with_flatten.
+
+(* T-U: the list-editing methods of Unit._SubUnitsList, regenerated from the source as effect sequences (inherited list operation, release loop,
+   adoption loop, in source order), are the ones the model assumes: each performs exactly one list operation, releases / adopts what the model
+   says, and never adopts before it releases ... *)
+Example C13_list_methods_as_modelled : methods_ok gen_methods = true.
+Proof. vm_compute. reflexivity. Qed.
+
+(* ... hence every method of the source, run effect by effect in its own order, yields the state of the model's `update` *)
+Theorem C13_every_list_method_is_its_model : forall name effs, In (name, effs) gen_methods ->
+  exists d a, flags_of name model_flags = Some (d, a) /\
+    forall s q l' D A, apply_effects effs s q l' D A = update s q l' (if d then D else []) (if a then A else []).
+Proof. exact (methods_as_modelled gen_methods C13_list_methods_as_modelled). Qed.
+Print Assumptions C13_every_list_method_is_its_model.
+
+(* adopting before releasing is not equivalent: a unit kept across a slice assignment would stay listed without naming its parent *)
+Theorem C13_adopt_before_release_refuted :
+  let s' := apply_effects [EAttach; EList; EDetach] overlap_state 10 [1] [1; 2] [1] in
+  Inv overlap_state /\ In 1 (kids_of s' 10) /\ par_of s' 1 = None /\
+  par_of (update overlap_state 10 [1] [1; 2] [1]) 1 = Some 10.
+Proof. exact adopt_before_release_refuted. Qed.
+Print Assumptions C13_adopt_before_release_refuted.
 
 (* an instance by computation: what flatten produces *)
 Definition flat_demo : list op :=
